@@ -32,9 +32,13 @@ RULE += (
 )
 RULE += (
     ' Every batch also carries 8 models declared with the DSL (generic recipes, and models that name required keys in both '
-    'documented ways at once - the `required` keyword and Property(required=True) flags - with 2..5 flagged properties); '
+    'documented ways at once - the `required` keyword and Property(required=True) flags - with 2..5 flagged properties; '
+    'subclasses that declare one or two of 3..6 inherited properties again); '
     'a second driver builds them and digests serialize_json / serialize_python under every hash seed of the batch (the last '
     'process in reverse order).'
+)
+RULE += (
+    ' Round 10: the DSL models include subclasses that declare one or two of 3..6 inherited properties again.'
 )
 ASSUMPTIONS = [
     "a finite set of hash seeds: covering set for the iteration orders of 3- and 4-element string sets among seeds 0..63, plus derived seeds",
@@ -134,7 +138,8 @@ def batches(draw):
             out.append(retitled(draw(st.sampled_from(out)), draw(st.integers(0, 5))))
         else:
             out.append(draw(docs.documents(docs.DCfg())))
-    models = [draw(required_both_ways()) if i % 2 else draw(R.recipes(DSL_CFG)) for i in range(8)]
+    models = [draw(required_both_ways()) if i % 4 == 1 else draw(overriding_subclass()) if i % 4 == 3
+              else draw(R.recipes(DSL_CFG)) for i in range(8)]
     return {"docs": out, "recipes": models}
 
 
@@ -157,6 +162,26 @@ def required_both_ways(draw):
     if kind == "Object":
         node["name"] = "Release"
     return node
+
+
+@st.composite
+def overriding_subclass(draw):
+    """A subclass that declares one (or two) of its parent's properties AGAIN and inherits the others: the order of the
+    merged properties is the parent's, whatever the names hash to."""
+    names = draw(st.lists(st.sampled_from(["name", "channel", "owner", "region", "build", "a", "b", "zz", "x1", "notes"]),
+                          min_size=3, max_size=6, unique=True))
+    parent = {"id": 1, "kind": "Object", "name": "Base", "kw": {}, "props": [
+        {"name": n, "source": None, "required": draw(st.booleans()),
+         "element": {"id": 10 + i, "kind": draw(st.sampled_from(["String", "Integer", "Element"])), "kw": {}}}
+        for i, n in enumerate(names)]}
+    again = draw(st.lists(st.sampled_from(names), min_size=1, max_size=2, unique=True))
+    child = {"id": 2, "kind": "Object", "name": "Child", "kw": {}, "base": parent, "props": [
+        {"name": n, "source": None, "required": draw(st.booleans()), "element": {"id": 30 + i, "kind": "Number", "kw": {}}}
+        for i, n in enumerate(again)]}
+    if draw(st.booleans()):
+        child["props"].append({"name": "extra", "source": None, "required": False,
+                               "element": {"id": 40, "kind": "Boolean", "kw": {}}})
+    return child
 
 
 def run_dsl_driver(path, seed, order="forward"):
